@@ -39,8 +39,13 @@ func checkC17(r *Run) {
 		okHdr := false
 		for _, s := range m.callsIn(recv, "io.ReadAtLeast") {
 			if len(s.Call.Args) == 3 {
-				if v, ok := constInt(info, s.Call.Args[2]); ok && v == 7 && strings.HasPrefix(norm(s.Call.Args[1]), "hdr[") {
-					okHdr = true
+				if v, ok := constInt(info, s.Call.Args[2]); ok && v == 7 {
+					// destination: a full slice of a 7-byte array
+					if sl, isSl := unparen(s.Call.Args[1]).(*ast.SliceExpr); isSl && sl.Low == nil && sl.High == nil {
+						if at, isArr := info.TypeOf(sl.X).Underlying().(*types.Array); isArr && at.Len() == 7 {
+							okHdr = true
+						}
+					}
 				}
 			}
 		}
@@ -53,18 +58,17 @@ func checkC17(r *Run) {
 			if ex.Ret == nil || len(ex.Ret.Results) != 3 || ex.St.Dead {
 				continue
 			}
-			s := norm(ex.Ret.Results[2])
-			if s == "ConnError{err}" {
+			// ConnError{e} with e an error variable
+			var wrapped types.Object
+			if cl, isCL := unparen(ex.Ret.Results[2]).(*ast.CompositeLit); isCL && len(cl.Elts) == 1 && strings.HasSuffix(types.TypeString(info.TypeOf(cl), nil), "p9.ConnError") {
+				if o := objOf(info, cl.Elts[0]); o != nil && isErrorType(o.Type()) && o.Parent() != o.Pkg().Scope() {
+					wrapped = o // a local error variable (not a package-level sentinel)
+				}
+			}
+			if wrapped != nil {
 				nConn++
 				// the err is the read's error, known non-nil
-				okNN := false
-				for _, p := range ex.St.Paths {
-					for k, v := range p {
-						if strings.HasPrefix(k, "err") && strings.HasSuffix(k, "== nil") && !v {
-							okNN = true
-						}
-					}
-				}
+				okNN := ex.St.holds(m.resolver(recv).nameOf(wrapped)+" == nil", false)
 				r.check(okNN && !ex.St.May["p9.message.decode"], "r4", fmt.Sprintf("recv: read error #%d ends the connection before decode", nConn), ex.Ret.Pos(), "ConnError{err} under err != nil, decode not reached", "a read error is not turned into a ConnError before any decoding")
 			}
 		}
@@ -102,15 +106,25 @@ func checkC17(r *Run) {
 		r.ok("r5", "generic path only on "+r.Config, token.NoPos, "readFromBuffersLinux is not compiled here; Buffers.ReadFrom uses the io.Reader loop")
 	}
 	// selection test in ReadFrom
+	// every call through the package-level function variable happens where the reader is known
+	// to be a syscall.Conn (comma-ok of the assertion true) and the variable is known non-nil
 	okTest := false
-	ast.Inspect(gen.Decl.Body, func(n ast.Node) bool {
-		if ifs, ok := n.(*ast.IfStmt); ok && ifs.Init != nil {
-			if strings.Contains(norm(ifs.Init), ".(syscall.Conn)") && strings.Contains(norm(ifs.Cond), "readFromBuffers!=nil") && strings.HasPrefix(norm(ifs.Cond), "ok&&") {
-				okTest = true
-			}
+	gres := newResolver(r.L, vinfo, gen.Decl)
+	connOK := resultNameIn(r.L, gen, gres, -1, isAssertTo(vinfo, "syscall.Conn"))
+	for _, s := range vdb.ByFunc[gen] {
+		if s.Call == nil || s.Callee != "" {
+			continue
 		}
-		return true
-	})
+		id, isId := unparen(s.Call.Fun).(*ast.Ident)
+		if !isId {
+			continue
+		}
+		v, isVar := vinfo.Uses[id].(*types.Var)
+		if !isVar || v.Parent() != v.Pkg().Scope() {
+			continue
+		}
+		okTest = connOK != "" && s.St.holds(connOK, true) && s.St.holds(id.Name+" == nil", false)
+	}
 	r.check(okTest, "r5", "ReadFrom uses the vectored path only for syscall.Conn readers", gen.Decl.Pos(), "r.(syscall.Conn) ok && readFromBuffers != nil", "the path selection in ReadFrom is not 'r is a syscall.Conn and the vectored reader exists'")
 }
 
@@ -216,8 +230,8 @@ func c17Generic(r *Run, db *SiteDB, info *types.Info, fi *FuncInfo) {
 					if strings.HasSuffix(k, " == 0") && v && !strings.Contains(k, "len(") {
 						z = true
 					}
-					if strings.HasPrefix(k, "err") && strings.HasSuffix(k, "== nil") && v {
-						e1 = true
+					if strings.HasSuffix(k, " == nil") && v {
+						e1 = true // the read's error is nil on this path
 					}
 				}
 				if z && e1 {
@@ -400,7 +414,8 @@ func c17Linux(r *Run, db *SiteDB, info *types.Info, fi *FuncInfo) {
 	if rm := r.L.Func("vecnet", "recvmsg"); rm != nil {
 		okZero := false
 		for _, ex := range db.Exits[rm] {
-			if ex.Ret != nil && len(ex.Ret.Results) == 2 && norm(ex.Ret.Results[1]) == "io.EOF" && ex.St.holds("n == 0", true) {
+			nName := resultNameIn(r.L, rm, newResolver(r.L, info, rm.Decl), 0, isCallTo(info, "syscall.Syscall"))
+			if ex.Ret != nil && len(ex.Ret.Results) == 2 && norm(ex.Ret.Results[1]) == "io.EOF" && nName != "" && ex.St.holds(nName+" == 0", true) {
 				okZero = true
 			}
 		}
